@@ -139,6 +139,13 @@ func (inst *instance) ShutdownAdmin() {
 	})
 }
 
+// ShutdownLocalConf shutdowns the local conf store.
+// The instance has no local conf store of its own; without this method the call is
+// promoted to the embedded Restarter's Instance, which is this instance again.
+func (inst *instance) ShutdownLocalConf() {
+	logger.Infof("Shutdown local conf...")
+}
+
 // DrainListeners drains the listeners.
 func (inst *instance) DrainListeners() {
 	inst.drainListenersOnce.Do(func() {
